@@ -692,9 +692,6 @@ func main() {
 		return
 	}
 	r := ev.Start("C02", "exploration")
-	r.Require("tx_roundtrip", "tx_identity_sig_independent", "hdr_roundtrip", "hdr_identity_sig_independent", "block_accept",
-		"block_reject_duplicate", "block_reject_wrong_root", "oversize_refused", "maxsize_accepted", "attr_roundtrip", "attr_reject",
-		"mutant_accepted", "mutant_clean_error")
 	checkTxs(r)
 	checkHeaders(r)
 	checkBlocks(r)
@@ -708,5 +705,10 @@ func main() {
 		"block: all sequences of <=3 (thorough 5) txs from a 4-tx pool with two signature variants of one tx x up to 6 roots x 2 header sig sets; " +
 		"oversize MAX-1/MAX/MAX+1/MAX+256 by code and by signatures via 3 entry points; mutations (child processes, ulimit -v 4000000): every truncation, " +
 		"every byte x 4 replacements, every count/length prefix x blown-up values, every prefix pair x 3x3 values, on 12 tx + 8 header + 4 block objects"
+	if r.NViolations() == 0 { // vacuity guard; a run that already found violations reports those (exit 1), not exit 2
+		r.Require("tx_roundtrip", "tx_identity_sig_independent", "hdr_roundtrip", "hdr_identity_sig_independent", "block_accept",
+		"block_reject_duplicate", "block_reject_wrong_root", "oversize_refused", "maxsize_accepted", "attr_roundtrip", "attr_reject",
+		"mutant_accepted", "mutant_clean_error")
+	}
 	r.Finish(cov)
 }
